@@ -99,6 +99,7 @@ type Exec struct {
 	feasMemo  map[string]bool
 	regexMemo map[string]*rxProg
 	curPos    token.Pos
+	watchPublish map[string]bool
 	tm        *threadMode
 	bmcThreads []bmcThread
 	sess      *Session
@@ -162,6 +163,7 @@ func (ex *Exec) resetPath(prefix []int) {
 	ex.callLog = nil
 	ex.curFrame = nil
 	ex.bmcThreads = nil
+	ex.watchPublish = map[string]bool{}
 }
 
 // RunPath executes the harness function along the given decision prefix.
@@ -927,6 +929,14 @@ func (ex *Exec) store(p *Pointer, v Value) {
 	cur, symEl, parent := ex.navigate(p)
 	if p.Obj.Frozen {
 		ex.noteFrozenWrite(p)
+	}
+	if len(ex.watchPublish) > 0 {
+		if ex.watchPublish[fmt.Sprintf("%d%s", p.Obj.ID, pathKey(p.Path))] {
+			if vp, ok := v.(*Pointer); ok && !vp.IsNil() && vp.Obj != nil {
+				// publication: from now on the pointee must not be written
+				vp.Obj.Frozen = true
+			}
+		}
 	}
 	p.Obj.UF = ""
 	if symEl != nil {
